@@ -973,7 +973,7 @@ def addr_program(draw):
             w = draw(st.sampled_from(ADDR_NODE_WORDS))
             g = draw(st.sampled_from(sorted(ctx["frames"])))
             forms.append("via-" + level + ":" + c)
-            ctx["inode_kind"] = (c, w)
+            ctx["inode_kind"] = (c, w, framers[g])
             return {"rel": [w], "rel.": [w + "."], "abs": [".top." + w], "me": ["me." + w],
                     "offramer": [w, "of", "framer"], "offramernamed": [w, "of", "framer", "{%s}" % framers[g]],
                     "ofme": [w, "of", "me"]}[c]
